@@ -148,13 +148,16 @@ CLAIMED = {
         technique="Coq proof (map lemmas over the data index) + exhaustive correspondence + laws on snapshots",
         ref="§7 C06"),
     "C09": dict(
-        text="Coq theorems over the mirror of move_p: its validation phase is complete (every documented failure is detected before the first "
-             "mutation: move_validation_complete), a failed validation returns the state unchanged (move_validation_frame), and a passed validation "
-             "establishes the facts the relocation loop relies on. copy and the relocation loop are mirrored and compared with the real code on every "
-             "reachable tree of a bounded namespace x every ordered pair of paths x Copier options; the statement's clauses (source untouched, "
-             "independent copy at the same relative paths with kind / content / target / mode, existing entries kept, nothing outside the destination "
-             "changes; move: source gone, destination equals former subtree; failed move_p changes nothing) are evaluated on the implementation's "
-             "pre/post snapshots. Partial: the copy / relocation postconditions are judged on the bounded enumeration, not yet proved for all trees.",
+        text="move_p is proved completely over the mirror (Memfs/WfMove.v, axiom-free): for every well-formed state and every source and "
+             "destination, the validation phase detects every documented failure before the first mutation and a failed move_p returns the "
+             "state unchanged; a successful move_p makes the source disappear with everything below it, makes the destination the former "
+             "source subtree entry for entry (same relative paths, kinds, modes, owners, child lists, byte contents; a link keeps the target "
+             "it stores), leaves every other entry and every other file's content untouched apart from the two parents' name lists, keeps cwd "
+             "and root, and the result is well formed (the relocation loop is handled by a display invariant). copy is mirrored and compared "
+             "with the real code on every reachable tree of a bounded namespace x every ordered pair of paths x Copier options, its clauses "
+             "(source untouched, independent copy at the same relative paths with kind / content / target / mode, existing entries kept, nothing "
+             "outside the destination changes, links consistent) evaluated on the implementation's pre/post snapshots. Partial: copy's "
+             "postconditions are judged on the bounded enumeration; proved for copy are no-panic and well-formedness preservation.",
         note="Trusted: Coq kernel; tools/frames.py as the executable statement of the clauses; after a copy that follows links the state is "
              "compared up to HashSet order; extraction, driver, harness, differ.",
         technique="Coq proof (validation completeness and frame) + model-guided BFS judged on pre/post snapshots",
